@@ -48,6 +48,22 @@ fn run_check(ctx: &Ctx) -> Outcome {
     }
 }
 
+/// thorough tier: add a coverage-guided libFuzzer campaign with the semantic oracles in-target
+fn thorough_fuzz(ctx: &Ctx, out: &mut Outcome) {
+    use pfv::fuzzrun::{run, Campaign};
+    if !ctx.thorough() || out.failed() || out.inconclusive.is_some() || std::env::var_os("VERIF_NO_FUZZ").is_some() {
+        return;
+    }
+    let c = match ctx.prop.as_str() {
+        "C01" | "C02" | "C03" | "C04" | "C05" | "C06" | "C09" | "C10" | "C11" | "C17" => Campaign { target: "gen_all", runs_per_job: 60_000, jobs: 8, max_len: 4096, detect_leaks: false },
+        "C08" => Campaign { target: "reuse", runs_per_job: 40_000, jobs: 8, max_len: 2048, detect_leaks: false },
+        "C14" => Campaign { target: "reuse", runs_per_job: 40_000, jobs: 8, max_len: 2048, detect_leaks: true },
+        "C15" | "C16" => Campaign { target: "mutators", runs_per_job: 400_000, jobs: 8, max_len: 256, detect_leaks: false },
+        _ => return,
+    };
+    run(ctx, out, &c);
+}
+
 fn main() {
     // generation panics are caught and judged by the oracles; keep stderr quiet
     if std::env::var_os("PFV_SHOW_PANICS").is_none() {
@@ -74,7 +90,11 @@ fn main() {
             }
             let out = match out_pre {
                 Some(o) => o,
-                None => match std::panic::catch_unwind(std::panic::AssertUnwindSafe(|| run_check(&ctx))) {
+                None => match std::panic::catch_unwind(std::panic::AssertUnwindSafe(|| {
+                    let mut o = run_check(&ctx);
+                    thorough_fuzz(&ctx, &mut o);
+                    o
+                })) {
                     Ok(o) => o,
                     Err(p) => {
                         // a panic of the harness itself is never a verdict about the repository
@@ -92,6 +112,11 @@ fn main() {
         "c09-one" => {
             let ctx = make_ctx("C09", "quick");
             std::process::exit(props::procs::c09_one(&ctx, &args[2]));
+        }
+        "selftest" => {
+            let ctx = make_ctx("selftest", "quick");
+            let n = args.get(2).and_then(|s| s.parse().ok()).unwrap_or(30_000);
+            std::process::exit(pfv::selftest::run(&ctx, n));
         }
         "digest-cases" => std::process::exit(props::procs::digest_cases(&args[2])),
         "replay" => {
